@@ -27,7 +27,7 @@ Inductive val :=
 | VSet (l : list val)
 | VDict (d : list (val * val)).
 
-Inductive binop := Add | Sub | Mul | FloorDiv | Mod | Pow | BitAnd | BitOr.
+Inductive binop := Add | Sub | Mul | FloorDiv | Mod | Pow | BitAnd | BitOr | Div (* a / b: true division *).
 Inductive cmpop := Eq | NotEq | Lt | LtE | Gt | GtE | In | NotIn | Is | IsNot.
 
 Inductive expr :=
